@@ -592,7 +592,7 @@ def replay(result, log_path=None):
     rep = {"culprits": culprits, "deadlocks": result.get("smt", {}).get("deadlocks", []), "native": {}, "explicit_state": []}
     reproduced = True
     notes = []
-    todo_native = [c for c in culprits if c in WITNESS]
+    todo_native = [c for c in culprits if c in WITNESS] if os.environ.get("VERIF_SKIP_REPLAY") != "1" else []
     if todo_native:
         st, out = native.run(os.path.join(NATIVE, "f7_deadlock.rs"), "src/engine/engine.rs", "verif_native_deadlock",
                              patches=PAUSE_PATCHES, appends=[("src/global/shared_data.rs", os.path.join(NATIVE, "f7_pause_hook.rs"))], timeout=3000)
